@@ -81,8 +81,9 @@ CHECKS = {
              '(every enum member, unknown/GREASE codes where a fallback exists, vector sizes at both bounds, optional '
              'arguments, boundary integers), plus every accepted corpus input of every concrete class; each is '
              'composed, re-parsed and compared field by field, nested values included. Sampling; the text families '
-             '(HTTP headers, TXT policies) are reached through parsed corpus objects only here and through the '
-             'grammar generators of C05/C18. '
+             '(HTTP headers, TXT policies) are built through their constructors from the grammar models of C18 and '
+             'also reached through parsed corpus objects; parsed objects additionally go back through every '
+             'dispatcher that lists their class. '
              ' Objects reached by editing in place (fields of items inside vectors, a constructor field replaced by'
              " another instance's value after a first compose) are judged against an equal object rebuilt through"
              ' the constructors.',
@@ -128,7 +129,8 @@ CHECKS = {
              'the five relations. Sampling. '
              ' Cross-process relations: the same work under four hash seeds, and one family of objects serialised'
              ' in four orders in fresh interpreters; the same object is serialised again after compose() and under'
-             ' an installed / removed text-encoder hook.',
+             ' an installed / removed text-encoder hook. Text objects are also built through their constructors'
+             ' from the grammar models of C18; the round-trip relation covers objects equal under ==.',
         note='Failures are keyed by the innermost cryptoparser/cryptodatahub frame; mutated X.509 certificates are '
              'outside the generated domain (lazy third-party parsing).',
         design='3 (C14)'),
@@ -140,8 +142,11 @@ CHECKS = {
         text='~2800 (thorough ~56k) generated records of every record layer (TLS, SSL 2.0 incl. 3-byte headers, SSH, '
              'MySQL, TPKT, OpenVPN-TCP, LDAP, PostgreSQL) with all their prefixes (~416k / 9.2M) and ~3000 (61k) '
              'delivery schedules with cuts forced inside headers and length fields, including handshake messages '
-             'fragmented over TLS records. Exact for the enumerated prefixes, sampling for schedules.',
-        note='The SSH identification string is line-delimited: only "a proper prefix is never accepted" is asserted for it.',
+             'fragmented over TLS records. Exact for the enumerated prefixes, sampling for schedules. '
+             'A pool of reference-encoded and lower-bound handshake messages (independent of compose()) is swept '
+             'deterministically and drawn into the streams.',
+        note='The SSH identification string is line-delimited: for it "a proper prefix is never accepted" and "a '
+             'complete identification string is never answered with NotEnoughData" are asserted.',
         design='3 (C04)'),
     'C06': dict(
         technique='differential testing against an independent reference encoder and strict decoder written from the '
